@@ -79,6 +79,12 @@ def run(tier, seed, replay):
     v.cov["admitted"] = sum(int(r["o1"]["ran"]) + int(r["o2"]["ran"]) for r in rows)
     for r in rows[:: max(1, len(rows) // 5)][:5]:
         v.sample(r)
+    # the duration slice: presentations during which the clock moved
+    timed = [r for r in rows if r["c"].get("dur", "0") != "0"]
+    v.cov["presentations_with_a_slow_verifier"] = 2 * len(timed)
+    v.cov["admitted_then_refused"] = sum(1 for r in timed if r["o1"]["ran"] and not r["o2"]["ran"])
+    for r in [r for r in timed if r["o1"]["ran"] and not r["o2"]["ran"]][:1]:
+        v.sample(r)
     for f in fails:
         e = rows[f["line"] - 1]
         name, _, nth = f["monfail"].partition("#")
